@@ -257,7 +257,7 @@ func (p *Parser) led(tokenType tokType, node ASTNode) (ASTNode, error) {
 		name := node.value
 		var args []ASTNode
 		for p.current() != tRparen {
-			expression, err := p.parseExpression(0)
+			expression, err := p.parseFunctionArg()
 			if err != nil {
 				return ASTNode{}, err
 			}
@@ -400,12 +400,6 @@ func (p *Parser) nud(token token) (ASTNode, error) {
 		}
 	case tCurrent:
 		return ASTNode{nodeType: ASTCurrentNode}, nil
-	case tExpref:
-		expression, err := p.parseExpression(bindingPowers[tExpref])
-		if err != nil {
-			return ASTNode{}, err
-		}
-		return ASTNode{nodeType: ASTExpRef, children: []ASTNode{expression}}, nil
 	case tNot:
 		expression, err := p.parseExpression(bindingPowers[tNot])
 		if err != nil {
@@ -426,6 +420,21 @@ func (p *Parser) nud(token token) (ASTNode, error) {
 	}
 
 	return ASTNode{}, p.syntaxErrorToken("Invalid token: "+token.tokenType.String(), token)
+}
+
+// parseFunctionArg parses one function argument: an expression or an
+// expression reference ("&" expression).  An expression reference is only
+// grammatical in this position.
+func (p *Parser) parseFunctionArg() (ASTNode, error) {
+	if p.current() != tExpref {
+		return p.parseExpression(0)
+	}
+	p.advance()
+	expression, err := p.parseExpression(bindingPowers[tExpref])
+	if err != nil {
+		return ASTNode{}, err
+	}
+	return ASTNode{nodeType: ASTExpRef, children: []ASTNode{expression}}, nil
 }
 
 func (p *Parser) parseMultiSelectList() (ASTNode, error) {
